@@ -185,6 +185,30 @@ def main():
     os.makedirs(os.path.join(REPLAYS, PROP), exist_ok=True)
     try:
         binary = build_driver()
+        # ---- stage 0 (not solver-decided; a guard that does not depend on the extractor): every description of up to 3 characters over
+        # an alphabet of the characters that matter to comment lexing, through the real function, judged by the lexical rule
+        import itertools
+        GA = "*/\r\n a\\"
+        gdescs = [""] + ["".join(t) for k in (1, 2, 3) for t in itertools.product(GA, repeat=k)] + ["a */ b", "**//", "/**/", "*\r\n/", "* /", "*\\/"]
+        for ind in (0, 2):
+            outs = run_driver(binary, gdescs, ind)
+            bad = [(d_, o) for d_, o in zip(gdescs, outs) if not o.endswith("*/\n") or "*/" in o[ind * 2 + 2:len(o) - 3]]
+            if bad:
+                d_, o = bad[0]
+                if node_judges([o])[0]:
+                    continue
+                rp = os.path.join(REPLAYS, PROP, "desc_guard")
+                os.makedirs(rp, exist_ok=True)
+                with open(os.path.join(rp, "input.hex"), "w") as f:
+                    f.write(d_.encode().hex() + "\n")
+                with open(os.path.join(rp, "REPLAY.md"), "w") as f:
+                    f.write("Property C13 (native guard): the description %r ends the doc comment early; emitted text:\n%s\nRun: bash %s/replay.sh (prints the emitted text)\n" % (d_, o, rp))
+                with open(os.path.join(rp, "replay.sh"), "w") as f:
+                    f.write("#!/bin/bash\n%s %d < %s/input.hex | xxd -r -p\nexit 1\n" % (binary, ind, rp))
+                violations.append(("native guard: description %r ends the doc comment early: emitted %r does not parse in member position" % (d_, o), rp))
+                samples.append({"description": d_, "emitted": o, "stage": "native guard"})
+                break
+        samples.append({"native_guard_descriptions": len(gdescs) * 2})
         pieces = extract()
         # ---- translator validation: the encoding's emitted text equals the real function's on probes
         probes = ["a description", "x", "two\nlines", "a */ b */", "**//*/", "slash / and star * apart", "ends with star*", "/starts with slash", "tab\tand \"quotes\" and `ticks`", "cr\r\nlf", "*\r/ and *\\/"]
